@@ -22,18 +22,18 @@ Set(st, k, v)      == [x \in DOMAIN st \cup {k} |-> IF x = k THEN v ELSE st[x]]
 
 \* ApplyReq(o, st, impl, mk) = [res, st]
 \* A make request for an id that is pending: mcrew answers "id exists" and nothing changes.  The single-loop crew's
-\* requests have no reply; what the code does today is the named deviation SioMakeOnPendingCancels (mk = "cancel":
-\* the request is not accepted, and it cancels the pending timer); a crew in which the new timer REPLACES the pending
-\* one (mk = "replace") satisfies the property just as well, so the judge admits either - one of them per history.
+\* requests have no reply.  There the new timer REPLACES the pending one (mk = "replace", what the code does); a crew
+\* that refuses the request and keeps the pending timer (mk = "keep") satisfies the property just as well, so the
+\* judge admits either - one of them per history.  (What the code did before its repair - the request cancels the
+\* pending timer and creates none, so that a timer nobody cancelled never fires - is admitted by neither.)
 ApplyReq(o, st, impl, mk) ==
   IF o.kind = "add" THEN
        IF PendingTok(st, o.id) # {} THEN
-            IF impl = "sio"
+            IF impl = "sio" /\ mk = "replace"
             THEN LET k == CHOOSE x \in PendingTok(st, o.id) : TRUE
                      cancelled == Set(st, k, [st[k] EXCEPT !.status = "cancelled"]) IN
-                 IF mk = "replace"
-                 THEN [res |-> "ok", st |-> Set(cancelled, o.op, [id |-> o.id, status |-> "pending", d |-> o.d, t |-> o.t])]
-                 ELSE [res |-> "ok", st |-> cancelled]
+                 [res |-> "ok", st |-> Set(cancelled, o.op, [id |-> o.id, status |-> "pending", d |-> o.d, t |-> o.t])]
+            ELSE IF impl = "sio" THEN [res |-> "rejected", st |-> st]
             ELSE [res |-> "exists", st |-> st]
        ELSE [res |-> "ok", st |-> Set(st, o.op, [id |-> o.id, status |-> "pending", d |-> o.d, t |-> o.t])]
   ELSE IF PendingTok(st, o.id) = {} THEN [res |-> "notfound", st |-> st]
